@@ -111,3 +111,4 @@ def c05(sc, io):
                     if (side == "BACK" and avg < limit) or (side == "LAY" and avg > limit):
                         res.append(("C05-fok", "fill-or-kill %s average %s breaches its limit %s" % (o["o"], avg, limit), {"order": o["o"]}))
     return res
+
